@@ -94,6 +94,14 @@ func (fx *FnCtx) globalValue(st *State, g *ssa.Global) Value {
 		return v
 	}
 	t := g.Type().(*types.Pointer).Elem()
+	if _, isFn := t.Underlying().(*types.Signature); isFn {
+		if f := fx.V.initOnlyFunc(g); f != nil {
+			fx.root.noteOnce("assumed: the package-level function variable " + g.Pkg.Pkg.Path() + "." + g.Name() + " holds the function it is initialised with (" + f.Name() + "): it is assigned nowhere else in the module")
+			v := Value{T: t, Fn: &FuncVal{Fn: f}}
+			st.Globals[g] = v
+			return v
+		}
+	}
 	name := "G_" + fx.tc.Mode.String() + "_" + g.Pkg.Pkg.Path() + "." + g.Name()
 	lay := fx.tc.Layout(t)
 	v := Value{T: t, L: make([]*Term, len(lay.Leaves))}
@@ -250,6 +258,13 @@ func (fx *FnCtx) execInstr(st *State, pc *Term, ins ssa.Instruction) {
 	case *ssa.Phi:
 		fx.fail("phi in the middle of a block")
 	case *ssa.Call:
+		if bsite, isB := fx.beforeSites[t]; isB && fx.topLevel && fx.fc != nil {
+			env := fx.entryEnv(st)
+			env.oldEnv = fx.entryEnv(fx.entry)
+			env.pc = pc
+			env.lookup = fx.siteLookup(st, t)
+			fx.runGhost(bsite, st, env)
+		}
 		var preSt *State
 		site, isSite := fx.appendSites[t]
 		if isSite && fx.topLevel {
@@ -434,7 +449,9 @@ func (fx *FnCtx) execUnOp(st *State, pc *Term, t *ssa.UnOp) {
 		fx.nonNil(pc, p, "load")
 		v := fx.Load(st, p)
 		v.T = t.Type()
-		fx.loadFacts(st, pc, v)
+		if v.Fn == nil {
+			fx.loadFacts(st, pc, v)
+		}
 		fx.vals[t] = v
 	case token.NOT:
 		fx.vals[t] = Value{T: t.Type(), L: []*Term{Not(x.L[0])}}
